@@ -210,6 +210,24 @@ ROUND4 = {
     'C17': "Round 4: AnyDict and AnyXml slots in the corpus; the schema reader (the package's other XML parser) against external DTD subsets and entities.",
     'C18': "Round 4: one object returned twice (two return values, array items).",
 }
+
+ROUND5 = {
+    'C01': "Round 5: requests spelled with other literals of the same lexical space; XmlData members and attributes of non-text types; constrained members with non-ASCII conformant values.",
+    'C02': "Round 5: the same model additions (two defects of the dict-document family found and fixed: XmlAttribute of non-text types, XmlData members).",
+    'C03': "Round 5: four hierarchy delimiters and the public helper called twice with every ordered pair of them; a later response does not repeat an earlier one's headers.",
+    'C05': "Round 5: Date / DateTime members probed with the other ISO 8601 spellings; MessagePack-RPC as ninth pipeline configuration.",
+    'C07': "Round 5: restricted simple types of every facet family in the generated application (schemas must compile); a SOAP 1.2 application (binding namespace, zeep client).",
+    'C08': "Round 5: all 113 quarter-hour UTC offsets enumerated (concrete companion of the symbolic proof); datetime values where a Date is declared.",
+    'C09': "Round 5: every Fault class of spyne.error against the status documented for its code.",
+    'C10': "Round 5: the non-default protocol configurations (wrapper keys kept, objects as lists, polymorphic).",
+    'C11': "Round 5: two functions of one service under one name (defect found and fixed).",
+    'C12': "Round 5: SOAP multi-reference requests; the package's classes and module-level containers are roots of the shared heap.",
+    'C13': "Round 5: HttpRpc as output protocol.",
+    'C14': "Round 5: HttpRpc as output protocol; bytes that are not UTF-8 as a request kind of every family.",
+    'C15': "Round 5: recursive models (SelfReference) and pattern removal as operations with result contracts.",
+    'C16': "Round 5: a repeated member (array without wrapper element) of the base class with subclass items.",
+    'C18': "Round 5: falsy and absent fields of a bare complex argument; the NullServer result against reference-decoded XML and SOAP replies.",
+}
 ISOLATION = (" Every path runs in a forked child of the worker (no process-wide state of the code under contract is shared "
              "between paths; native replays start from the freshly loaded state).")
 
@@ -228,7 +246,7 @@ def main():
         checks=[], not_applicable=[], notes="exit codes: 0 held, 1 VIOLATION, 2 undecided, 3 checker error")
     for k in sorted(CLAIMED):
         text, note, tech, ref = CLAIMED[k][:4]
-        text = text + ' ' + ROUND4.get(k, '') + ISOLATION
+        text = text + ' ' + ROUND4.get(k, '') + ' ' + ROUND5.get(k, '') + ISOLATION
         cat = CLAIMED[k][4] if len(CLAIMED[k]) > 4 else 'proof'
         m['checks'].append(dict(
             property_id=k, quick_cmd="bin/check %s --tier quick" % k, thorough_cmd="bin/check %s --tier thorough" % k,
